@@ -36,8 +36,10 @@ Theorem C12_semantics_pinned :
   | None => false
   end = true.
 Proof. exact semantics_pinned. Qed.
+Print Assumptions C12_semantics_pinned.
 Theorem C12_distinguishers_wellformed : forallb (fun s => no_barb (bytes_of_string s)) distinguishers = true.
 Proof. exact distinguishers_wellformed. Qed.
+Print Assumptions C12_distinguishers_wellformed.
 Theorem C12_distinguishers_distinct : pairwise_distinct distinguishers = true.
 Proof. exact distinguishers_distinct. Qed.
 Print Assumptions C12_distinguishers_distinct.
